@@ -255,6 +255,51 @@ func runOrder(c *harness.Ctx) harness.Result {
 	return res
 }
 
+// part viewers: what a visualizing command showed stays what it showed. A launcher-style viewer
+// (it hands the file to a running program and exits at once, like xdg-open) is given each report
+// file; it keeps a copy of what it saw. After a second visualizing command, more than a second
+// later, the first file still holds the first report.
+func runViewers(c *harness.Ctx) harness.Result {
+	r := c.Rng
+	p := GenProfile(r)
+	var buf bytes.Buffer
+	p.WriteUncompressed(&buf)
+	tools := filepath.Join(c.Tmp, "viewers")
+	os.MkdirAll(tools, 0o755)
+	logf := filepath.Join(c.Tmp, "viewed.log")
+	violf := filepath.Join(c.Tmp, "viewed.changed")
+	script := "#!/bin/sh\nif [ -f " + logf + " ]; then while read f s; do if [ -f \"$f\" ] && ! /usr/bin/cmp -s \"$f\" \"$s\"; then echo \"$f $s\" >> " + violf + "; fi; done < " + logf + "; fi\n" +
+		"/bin/cp \"$1\" \"$1.seen.$$\"\necho \"$1 $1.seen.$$\" >> " + logf + "\n"
+	for _, v := range []string{"kcachegrind", "xdg-open", "sensible-browser", "gv", "evince", "eog"} {
+		os.WriteFile(filepath.Join(tools, v), []byte(script), 0o755)
+	}
+	cmds := [][2]string{{"kcachegrind", "kcachegrind main"}, {"kcachegrind", "kcachegrind a"}, {"kcachegrind -cum", "kcachegrind f"}, {"kcachegrind a", "kcachegrind"}}[r.Intn(4)]
+	lines := []string{cmds[0], cmds[1], "top"}
+	res := harness.Result{NonTrivial: true, Sig: fmt.Sprintf("viewers %q %d", lines, c.Index), Sample: map[string]any{"lines": lines}}
+	sr, err := sess.Run(sess.Spec{Profile: buf.Bytes(), Mode: "interactive", Lines: lines, Dir: c.Tmp + "/s", Path: tools + ":/bin:/usr/bin", LineDelayMs: 1300}, 2*time.Minute)
+	if err != nil || sr.Panic != "" {
+		return harness.Result{Verdict: harness.Inconclusive, Detail: fmt.Sprintf("session: %v %s", err, sr.Panic)}
+	}
+	b, _ := os.ReadFile(logf)
+	var files []string
+	for _, l := range strings.Split(strings.TrimSpace(string(b)), "\n") {
+		if l != "" {
+			files = append(files, l)
+		}
+	}
+	c.Stat("viewer_sessions", 1)
+	c.Stat("viewer_invocations", int64(len(files)))
+	if len(files) < 2 {
+		return harness.Result{Verdict: harness.Inconclusive, Detail: fmt.Sprintf("the stand-in viewer ran %d times for %q", len(files), lines)}
+	}
+	if b, err := os.ReadFile(violf); err == nil && len(b) > 0 {
+		f, _, _ := strings.Cut(strings.TrimSpace(string(b)), " ")
+		res.Verdict = harness.Violated
+		res.Detail = fmt.Sprintf("session %q: when the second visualizing command started its viewer, the file handed to the first viewer (%s) no longer held what that viewer was shown (a later command wrote its report into it)", lines, drv.NormalizeTmpNames(f))
+	}
+	return res
+}
+
 func runInteractive(c *harness.Ctx) harness.Result {
 	r := c.Rng
 	p := GenProfile(r)
@@ -401,7 +446,7 @@ func runDisasm(c *harness.Ctx) harness.Result {
 
 var webPaths = []string{"/top", "/", "/peek", "/flamegraph", "/source", "/disasm", "/download"}
 var webTypos = []string{"f=F1(", "i=F3)", "h=[12", "si=nosuchtype", "s=*", "sf=(", "prunefrom=a(", "tf=x(", "ti=)"}
-var webParams = []string{"f=main", "f=a", "f=a|b", "i=c", "h=d|e", "s=a|b|main", "sf=b", "g=lines", "g=files", "g=addresses", "si=cpu", "si=samples", "n=2", "sort=cum", "noinlines=t", "tf=v1", "ti=x", "ts=k1", "th=k2", "tagroot=k1", "tagleaf=k2", "calltree=t", "mean=t", "rel=t", "nodefraction=0.3", "trim=false", "prunefrom=c", "unit=ms", "showcolumns=t"}
+var webParams = []string{"f=main", "f=a", "f=a|b", "i=c", "h=d|e", "s=a|b|main", "sf=b", "g=lines", "g=files", "g=addresses", "si=cpu", "si=samples", "si=space", "n=2", "sort=cum", "noinlines=t", "tf=v1", "ti=x", "ts=k1", "th=k2", "tagroot=k1", "tagleaf=k2", "calltree=t", "mean=t", "rel=t", "nodefraction=0.3", "trim=false", "prunefrom=c", "unit=ms", "showcolumns=t"}
 
 func genRequests(r *rand.Rand, n int) []string {
 	var out []string
@@ -444,9 +489,21 @@ func runWeb(c *harness.Ctx) harness.Result {
 			sm.NumUnit["kq"] = []string{[]string{"bytes", "kilobytes"}[i%2]}
 		}
 	}
+	reqs := genRequests(r, 6+r.Intn(10))
+	if len(p.SampleType) == 2 && p.SampleType[1].Type == "cpu" && r.Intn(4) == 0 {
+		// sample types of two unit families (bytes and time): pages about the one, then the other
+		p.SampleType[0] = &profile.ValueType{Type: "space", Unit: "bytes"}
+		for _, sm := range p.Sample {
+			sm.Value[0] = sm.Value[0]<<20 + int64(r.Intn(1<<19))
+			sm.Value[1] = sm.Value[1]*1000000 + int64(r.Intn(1000000))
+		}
+		first := []string{"/flamegraph", "/flamegraph?si=cpu", "/flamegraph?si=space", "/top?si=cpu", "/?si=cpu"}[r.Intn(5)]
+		reqs = append([]string{first}, reqs...)
+		reqs = append(reqs, []string{"/top?si=space", "/?si=space", "/flamegraph?si=space", "/peek?si=space&f=main"}[r.Intn(4)], []string{"/top", "/", "/flamegraph?si=cpu"}[r.Intn(3)])
+		c.Stat("two_unit_family_sessions", 1)
+	}
 	var buf bytes.Buffer
 	p.WriteUncompressed(&buf)
-	reqs := genRequests(r, 6+r.Intn(10))
 	conc := 1
 	if r.Intn(2) == 0 {
 		conc = 2 + r.Intn(5)
@@ -555,6 +612,7 @@ func init() {
 			{Name: "disasm", Quick: 40, Thor: 1500, Run: runDisasm},
 			{Name: "firstcmd", Quick: 120, Thor: 4000, Run: runFirstCmd},
 			{Name: "order", Quick: 150, Thor: 5000, Run: runOrder},
+			{Name: "viewers", Quick: 16, Thor: 300, Run: runViewers},
 		},
 		MinNonTrivial: func(string) int { return 100 },
 		Finish: func(tier string, st map[string]int64) string {
